@@ -199,8 +199,11 @@ package bttest
 //@   requires req != nil
 //@   requires stream != nil
 //@   modifies s.tables[req.TableName].lastReadNanos
+//@   modifies ghost(btReadEpoch), ghost(btReadRow)
 //@   ensures !old(req.TableName in s.tables) ==> result != nil && uf_grpcCode(result) == codes.NotFound
 //@   ensures old(req.TableName in s.tables) && old(req.Rows != nil && (exists i :: 0 <= i < len(req.Rows.RowRanges) && rrBad(req.Rows.RowRanges[i]))) ==> result != nil && uf_grpcCode(result) == codes.InvalidArgument
+// (validation passed: stated over the entry state so that the InvalidArgument post needs no heap transfer at the late returns)
+//@   loop 1 invariant !old(req.Rows != nil && (exists i :: 0 <= i < len(req.Rows.RowRanges) && rrBad(req.Rows.RowRanges[i])))
 //@   loop 1 invariant held(tbl.mu) == 1
 //@   loop 1 invariant err == nil
 //@   loop 1 invariant chunksOK(cb.chunks)
@@ -219,6 +222,7 @@ package bttest
 //@   property C03
 //@   requires req != nil
 //@   requires stream != nil
+//@   modifies ghost(btReadEpoch), ghost(btReadRow)
 //@   ensures !old(req.TableName in s.tables) ==> result != nil && uf_grpcCode(result) == codes.NotFound
 //@   callback $1 invariant held(tbl.mu) == 1
 //@   callback $1 invariant offset >= 0
